@@ -135,3 +135,26 @@ pub fn batch_shape(evs: &[Ev]) -> (usize, usize, usize) {
     let single = evs.iter().filter(|e| e.kind != Kind::Par).count();
     if par > 0 { (par, single, 0) } else { (0, 0, single) }
 }
+
+/// IV for a keystream flavour, biased to where carries happen. For BelT-CTR the IV is
+/// crafted with the harness-owned D so that s0 = E(IV) sits just below 2^32 / 2^64 / 2^128
+/// (no test vector can do that); for CTR flavours see `wl::ctr_iv`.
+pub fn stream_iv(ctx: &mut Ctx, fl: Flavor, b: usize) -> (Vec<u8>, &'static str) {
+    if fl == Flavor::Belt && ctx.rc.has_d() && ctx.rng.chance(2, 3) {
+        let w = ctx.cfg.par.max(1) as u128;
+        let k = ctx.rng.below(3 * w as usize + 4) as u128;
+        let cands: [(u128, &str); 6] = [
+            (u128::MAX, "s0=2^128-1"),
+            (u128::MAX - 1, "s0=2^128-2"),
+            (u128::MAX - k, "s0~2^128-k"),
+            ((1u128 << 64) - 1 - k, "s0~2^64-k"),
+            ((1u128 << 32) - 1 - k, "s0~2^32-k"),
+            ((1u128 << 96) - 1 - k, "s0~2^96-k"),
+        ];
+        let (t, c) = *ctx.rng.pick(&cands);
+        let mut blk = t.to_le_bytes().to_vec();
+        ctx.rc.d(&mut blk);
+        return (blk, c);
+    }
+    wl::ctr_iv(&mut ctx.rng, fl, b)
+}
